@@ -16,6 +16,7 @@ Definition obs_eqb (a b : obs) : bool :=
   | BUnit, BUnit => true
   | BQueued x, BQueued y => zlist_eqb x y
   | BRan x, BRan y => list_eqb cbrec_eqb x y
+  | BRanCut x, BRanCut y => list_eqb cbrec_eqb x y
   | BWait q x, BWait q' y => zlist_eqb q q' && list_eqb cbrec_eqb x y
   | _, _ => false
   end.
